@@ -99,6 +99,11 @@ impl PrefixParser {
         }
     }
 
+    #[cfg(feature = "verif-hooks")]
+    pub(crate) fn verif_prefixes() -> &'static [(&'static str, &'static [&'static str], Prefix)] {
+        Self::prefixes()
+    }
+
     fn prefixes() -> &'static [(&'static str, &'static [&'static str], Prefix)] {
         PREFIXES.get_or_init(|| {
             vec![
